@@ -115,6 +115,13 @@ TEMPLATES = {
                    '--attach-load=1,all,2', '--attach-load=1,1,2', '--attach-load=3,all', '--attach-load=3,3',
                    '--attach-load=2,all,1', '--attach-load=2,all,1'], False,
         lambda c, v: []),
+    'scaled-objects': (
+        # a helix, an arc and a wire, scaled as a whole and per tag: the written radius / dimensions are the ENTERED ones (the scale
+        # options are written too); transformations are really applied here (not stubbed as in 'transforms')
+        dict(f=('r', 1, 100), s1=('r', 0.05, 20), s2=('r', 0.05, 20)),
+        lambda v: ['-f', N(v['f']), '--helix=3,0.1,0.5,0.002,0.2,0.2', '-a', '3,1.0,10,130,0.002', '-w', '2,5,5,5,6,5.5,5.2,0.003',
+                   '--excitation-pulse=1', '--geo-scale=%s' % N(v['s1']), '--geo-scale=%s,2' % N(v['s2'])], False,
+        lambda c, v: []),
     'media': (
         dict(f=('r', 1, 100), e1=('r', 1, 80), g1=('r', 1e-4, 10), e2=('r', 1, 80), g2=('r', 1e-4, 10), h2=('r', -10, 10),
              u1=('r', 1, 1000), rr=('r', 1e-4, 0.01)),
@@ -153,11 +160,8 @@ def opt_argv(text):
         ln = ln.strip()
         if not ln:
             continue
-        if ln.startswith('-') and not ln.startswith('--') and ' ' in ln:
-            k, val = ln.split(' ', 1)
-            argv.extend([k, val.strip()])
-        else:
-            argv.append(ln)
+        # an option file is read as the whitespace-separated words of all its lines (test/test_mininec.py read_pym; README)
+        argv.extend(w for w in ln.split() if w)
     return argv
 
 
@@ -345,7 +349,7 @@ def main(args):
     ck = Check('C15', args)
     ck.shadow_stats = symx.load().stats
     names = list(TEMPLATES) if ck.tier == 'thorough' else ['source-1V-neighbour', 'tags+taper+bygeo', 'skin-per-tag', 'rlc+trap+laplace',
-                                                         'media', 'media3', 'transforms', 'mixed-loads-out-of-order', 'repeated-attachment']
+                                                         'media', 'media3', 'transforms', 'mixed-loads-out-of-order', 'repeated-attachment', 'scaled-objects']
     run_parallel(ck, 'checks.c15', [('roundtrip', (n,)) for n in names])
     ck.assumptions += ['argument lists are built from the listed templates; every numeric field of a template is an arbitrary value in '
                        'its stated range; geometry coordinates are concrete',
